@@ -102,7 +102,10 @@ NewOp0(name, b, tpl, fin, tw, tf, mf) ==
 NewOp(name, b, tpl, fin) == NewOp0(name, b, tpl, fin, 8, FALSE, FALSE)
 (* with_tab_width before or after with_style: every order must expand consistently (C16) *)
 (* ... and with_message / with_prefix before or after it (mfirst: the texts are given first) *)
-NewOps(name, b, tpl, fin) == UNION { { NewOp0(name, b, tpl, fin, tw, tf, mf) : tf \in (IF tw = 8 THEN {FALSE} ELSE BOOLEAN), mf \in (IF tw = 8 \/ M0 # "tab" THEN {FALSE} ELSE BOOLEAN) } : tw \in TabWs }
+(* a bar on the default target is made by ProgressBar::new / new_spinner / no_length, or by an iterator adaptor for itself: (0..0).progress_count(len), (0..len).progress() *)
+Vias == IF Tgt \in {"default_pipe", "default_pty"} /\ ~Multi THEN {"", "progress_count", "progress"} ELSE {""}
+NewOps1(name, b, tpl, fin) == UNION { { NewOp0(name, b, tpl, fin, tw, tf, mf) : tf \in (IF tw = 8 THEN {FALSE} ELSE BOOLEAN), mf \in (IF tw = 8 \/ M0 # "tab" THEN {FALSE} ELSE BOOLEAN) } : tw \in TabWs }
+NewOps(name, b, tpl, fin) == UNION { { [via |-> v] @@ o : v \in Vias } : o \in NewOps1(name, b, tpl, fin) }
 
 BarOp(name, b, dt) == [op |-> name, b |-> b, dt |-> dt]
 
@@ -130,6 +133,8 @@ OpsNow ==
                        [] nm \in {"tick", "reset", "force_draw", "drop", "clone", "drop_one", "is_hidden", "downgrade", "reset_elapsed"}
                             -> { BarOp(nm, b, dt) }
                        [] nm = "burst" -> { ([n |-> 25] @@ BarOp(nm, b, dt)) }
+                       [] nm = "fburst" -> { ([n |-> 80] @@ BarOp(nm, b, dt)) }                      \* eighty forced draws in a row
+                       [] nm = "to_hidden_mp" -> IF Multi /\ ~S.bars[b].inmp THEN {} ELSE { BarOp(nm, b, dt) }
                        [] nm \in {"inc", "set_position", "set_length", "inc_length", "dec_length"}
                             (* RESTRICTION: position updates are spaced >= 1 ms so the position  *)
                             (* bucket (C05) never withholds the draw request                     *)
